@@ -183,7 +183,7 @@ static DbCase genCase(int grid, bool gaps, bool hazard)
   c.grid   = grid;
   c.gaps   = gaps;
   c.hazard = hazard;
-  c.ambig  = G::pct(5);
+  c.ambig  = G::i(0, 99) >= 95; // shrinks towards 0
   if (grid)
   {
     c.nx   = G::i(1, 4);
@@ -391,6 +391,12 @@ struct R
   bool fail(const std::string& what, const std::string& msg)
   {
     std::string key = opn + ":" + what;
+    // variants that name a root-cause class of their own come first, so that one prefix covers all entry points
+    for (const char* cls : {"#next-self", "#stale", "#with-stale"})
+    {
+      size_t p = opn.find(cls);
+      if (p != std::string::npos && opn.size() == p + strlen(cls)) key = std::string(cls + 1) + ":" + opn.substr(0, p) + ":" + what;
+    }
     if (what.rfind("@", 0) == 0) key = what.substr(1); // observer defects carry their own key
     Failure f{key, fmt("step %d (%s): ", step, opn.c_str()) + msg};
     if (isExcluded(key))
@@ -493,7 +499,10 @@ static bool checkState(R& r)
   Tbl& m = r.m;
   if (r.tainted)
   {
+    // memory safety only; the table follows the library (gap slots included) so that the next
+    // operation still receives arguments that are valid for the library's state
     observeOnly(r);
+    adopt(m, db);
     return true;
   }
   r.ctx->at(r.opn + ":observe");
@@ -770,8 +779,8 @@ struct Interp
   int fixIdx(int t, int li, int uid) const
   {
     if (t < 0) return 0;
-    if (r.gapsOk) return li;
     if (uniqueLoc(t)) return 0;
+    if (r.gapsOk) return li;
     if (li < 0) return -1;
     int cnt = (int)m.roles[(size_t)t].size();
     if (uid >= 0 && m.inRole(uid, t)) cnt--;
@@ -789,7 +798,6 @@ struct Interp
   void fixMulti(std::vector<int>& uids, int t, int& li, bool& clean) const
   {
     if (t < 0) { li = 0; return; }
-    if (r.gapsOk) return;
     if (uniqueLoc(t))
     {
       if (uids.size() > 1) uids.resize(1);
@@ -797,6 +805,7 @@ struct Interp
       clean = true;
       return;
     }
+    if (r.gapsOk) return;
     Tbl tmp = m;
     if (li >= 0) li = std::min(li, (int)m.roles[(size_t)t].size());
     if (tmp.setRoles(uids, t, li, clean))
@@ -868,7 +877,7 @@ void Interp::run()
     {
       int t    = o.loc;
       int nadd = 1 + o.a % 3;
-      if (t >= 0 && uniqueLoc(t) && !r.gapsOk) nadd = 1;
+      if (t >= 0 && uniqueLoc(t)) nadd = 1;
       if (m.ncol() + nadd > MAXCOL) return skip();
       int li = fixIdx(t, o.li, -1);
       if (o.bad)
@@ -890,7 +899,7 @@ void Interp::run()
     {
       int t    = o.loc;
       int nvar = 1 + o.a % 3;
-      if (t >= 0 && uniqueLoc(t) && !r.gapsOk) nvar = 1;
+      if (t >= 0 && uniqueLoc(t)) nvar = 1;
       if (m.ncol() + nvar > MAXCOL) return skip();
       int li      = fixIdx(t, o.li, -1);
       bool useSel = (o.flag & 1) && useSelOK();
@@ -934,7 +943,7 @@ void Interp::run()
     {
       int t    = o.loc;
       int nadd = 1 + o.a % 2;
-      if (t >= 0 && uniqueLoc(t) && !r.gapsOk) nadd = 1;
+      if (t >= 0 && uniqueLoc(t)) nadd = 1;
       if (m.ncol() + nadd > MAXCOL) return skip();
       int li   = fixIdx(t, o.li, -1);
       int seed = 1 + (o.b * 977 + o.c) % 20000000;
@@ -1080,7 +1089,7 @@ void Interp::run()
       if (o.bad)
       {
         int u = badUid(o.a, tag);
-        setTag("#with" + tag.substr(1));
+        setTag("#with-" + tag.substr(1));
         us.insert((size_t)o.b % (us.size() + 1), u);
       }
       addressed();
@@ -1347,6 +1356,7 @@ void Interp::run()
       bool clean = (o.flag & 8) && t >= 0;
       int li     = fixIdx(t, o.li, clean ? -1 : uid);
       if (clean && !r.gapsOk && li > 0) li = 0;
+      if (t >= 0 && uniqueLoc(t)) clean = true;
       if (o.bad)
       {
         if (code == LOC_NAME) { setTag("#unknown"); db.setLocator("nope", LOC(t), li < 0 ? -1 : 0, clean); }
@@ -1375,12 +1385,13 @@ void Interp::run()
       int li     = o.li;
       fixMulti(us, t, li, clean);
       cs.resize(us.size());
-      if (t >= 0 && li < 0 && !clean && anyInRole(us, t)) setTag("#next-self");
+      bool ns = t >= 0 && li < 0 && !clean && anyInRole(us, t);
+      if (ns) setTag("#next-self");
       if (code == LOCS_NAMES)
       {
         VectorString names;
         for (int c : cs) names.push_back(m.cols[(size_t)c].name);
-        if (o.bad) { setTag(r.opn.substr(strlen(opName(code))) + "#with-unknown"); names.push_back("nope"); }
+        if (o.bad) { if (!ns) setTag("#with-unknown"); names.push_back("nope"); }
         db.setLocators(names, LOC(t), li, clean);
       }
       else if (code == LOCS_UIDS)
@@ -1389,7 +1400,7 @@ void Interp::run()
         if (o.bad && !clean)
         {
           int u = badUid(o.b, tag);
-          setTag(r.opn.substr(strlen(opName(code))) + "#with" + tag.substr(1));
+          if (!ns) setTag("#with-" + tag.substr(1));
           v.push_back(u);
         }
         addressed();
@@ -1398,7 +1409,7 @@ void Interp::run()
       else
       {
         VectorInt v(cs.begin(), cs.end());
-        if (o.bad && !clean) { setTag(r.opn.substr(strlen(opName(code))) + "#with-oor"); v.push_back(badCol(o.b)); }
+        if (o.bad && !clean) { if (!ns) setTag("#with-oor"); v.push_back(badCol(o.b)); }
         addressed();
         db.setLocatorsByColIdx(v, LOC(t), li, clean);
       }
@@ -1446,7 +1457,7 @@ void Interp::run()
       if (tin == tout) return skip();
       auto& lin  = m.roles[(size_t)tin];
       auto& lout = m.roles[(size_t)tout];
-      if (uniqueLoc(tout) && lin.size() + lout.size() > 1 && !r.gapsOk) return skip();
+      if (uniqueLoc(tout) && lin.size() + lout.size() > 1) return skip();
       addressed();
       db.switchLocator(LOC(tin), LOC(tout));
       lout.insert(lout.end(), lin.begin(), lin.end());
